@@ -87,6 +87,10 @@ def removeField (s : Soft) (f : GoString) : Soft :=
   let s := s.check
   { s with typ := { s.typ with attrs := s.typ.attrs.del f, rels := s.typ.rels.del f } }
 
+/-- soft_resource.go `SetType`: `check()` against the old type, then the pointer is replaced
+(the values are reconciled with the new type by the next `check()`). -/
+def setType (s : Soft) (t : Typ) : Soft := { s.check with typ := t }
+
 /-- soft_resource.go `New` -/
 def new (s : Soft) : Soft := { typ := s.check.typ, id := [], data := [] }
 
